@@ -441,6 +441,63 @@ def t_cmpxform(facts, res, tier):
                         seen2.add(key + ":bad")
                         res.fail(key, facts.where(fn, e["node"]), "generate_condition_ex hands the comparison to %s with operator %s while the operands are %s: for op=%s negate=%s that is not the requested comparison (the operator passed must be the one computed for the swapped operands)" % (
                             e["callee"], final, "swapped" if swapped else "in order", op, neg))
+    # the function starting again with a register copy of `left` (TXA / TYA, then A in its place): the comparison it asks
+    # itself for - operator', (copy of left, other operand), negate' - must still mean `op(l, r) XOR negate`
+    ps_self = [p for p in fn["params"] if p["name"] != "self"]
+    ei = [i for i, p in enumerate(ps_self) if norm_ty(p["ty"]) == "ExprType"]
+    oi = [i for i, p in enumerate(ps_self) if norm_ty(p["ty"]) == "Operation"]
+    ni = [i for i, p in enumerate(ps_self) if norm_ty(p["ty"]) == "bool"]
+    seen3 = set()
+    for kind, value, st in fn_paths(facts, fn):
+        env = st.env
+        lv, rv = env.get("left"), env.get("right")
+        if not (isinstance(lv, Sym) and isinstance(rv, Sym)) or {lv.key, rv.key} != {l, r}:
+            continue
+        negs = domain_of(st, Sym(pneg[0], "bool"), facts) or {True, False}
+        ops = (domain_of(st, Sym(pop[0], "Operation"), facts) or set(cmp_ops)) & set(cmp_ops)
+        for e in st.events:
+            if e["kind"] != "call" or e["callee"] != fn["name"] or len(e["args"]) <= max(ei + oi + ni):
+                continue
+            a0, a1, xv, nv = e["args"][ei[0]], e["args"][ei[1]], e["args"][oi[0]], e["args"][ni[0]]
+            syms = [a for a in (a0, a1) if isinstance(a, Sym) and a.key in (l, r)]
+            if len(syms) == 2:
+                first, second = a0.key, a1.key
+            elif len(syms) == 1:
+                # the other argument is a value built on the spot: the copy of `left`
+                first, second = (lv.key, a1.key) if syms[0] is a1 else (a0.key, lv.key)
+            else:
+                continue
+            for neg in sorted(negs):
+                if isinstance(nv, Const):
+                    neg2 = bool(nv.v)
+                elif isinstance(nv, Sym) and nv.key == pneg[0]:
+                    neg2 = neg
+                else:
+                    continue
+                for op in sorted(ops):
+                    if isinstance(xv, EnumV):
+                        final = xv.variant
+                    elif isinstance(xv, Sym) and xv.key == pop[0]:
+                        final = op
+                    else:
+                        continue
+                    if final not in C_CMP:
+                        continue
+                    key = "T-CMPXFORM:restart:%s:%s:%s" % (op, "negate" if neg else "plain", "swapped" if lv.key == r else "direct")
+                    bad = first == second
+                    for (a, b) in ORDERINGS:
+                        val = {l: a, r: b}
+                        want = truth3(op, a, b) != neg
+                        got = truth3(final, val[first], val[second]) != neg2
+                        if want != got:
+                            bad = True
+                    if key not in seen3:
+                        seen3.add(key)
+                        res.inst(key, True, {"op": op, "negate": neg, "operands_swapped": lv.key == r, "restarts_with": [final, first, second, neg2]})
+                    if bad and key + ":bad" not in seen3:
+                        seen3.add(key + ":bad")
+                        res.fail(key, facts.where(fn, e["node"]), "generate_condition_ex starts again with a register copy of `%s` and asks for %s(%s, %s)%s: for op=%s negate=%s with the operands %s that is not the requested comparison%s" % (
+                            lv.key, final, first, second, " negated" if neg2 else "", op, neg, "switched" if lv.key == r else "in order", " (an operand is compared with itself)" if first == second else ""))
     # check_branches inversion map
     cb = facts.fn("check_branches", "AssemblyCode")
     cmaps = enum_maps(facts, cb)
